@@ -153,10 +153,10 @@ def check_gr_arm(run, pkg, name, dtype, ctype):
         tr = S.Translator(lambda t: sLmin if t == LMIN else (sdel if t == ("sym", "rdelta") else None), True)
         try:
             gb = tr.tr(hi["bins"]) if hi["bins"] is not None else None
-            okb = gb is not None and S.decide_equal(gb, sp.Function("builtins.int")(sLmin / (2 * sdel)))[0] is True
+            okb = gb is not None and S.decide_equal(gb, S.PyInt(sLmin / (2 * sdel)))[0] is True
             rg = hi["range"]
             okr = rg is not None and rg[0] == "tuple" and len(rg[1]) == 2 and rg[1][0] in (C(0), C(0.0)) and \
-                S.decide_equal(tr.tr(rg[1][1]), sp.Function("builtins.int")(sLmin / (2 * sdel)) * sdel)[0] is True
+                S.decide_equal(tr.tr(rg[1][1]), S.PyInt(sLmin / (2 * sdel)) * sdel)[0] is True
         except Exception:  # noqa
             okb = okr = None
         run.ob("R-ALG", fq, f"{name}:{col}:bins", okb, "bins = int(L_min / (2 rdelta))", show(hi["bins"])[:70] if hi["bins"] else "default",
